@@ -686,6 +686,8 @@ func runOwnership(cs string) string {
 		corrupt = ownDohCancel(seed, atoi(m["n"]))
 	case "staleretry":
 		corrupt = ownStaleRetry(seed, atoi(m["n"]))
+	case "redisstall":
+		corrupt = ownRedisStall(seed, atoi(m["n"]))
 	case "cachehot":
 		corrupt = ownCacheHot(seed, atoi(m["ops"]))
 	case "malformed":
@@ -716,6 +718,7 @@ func genOwnership(r *rand.Rand, thorough bool, emit func(c, cat string)) {
 		emit(fmt.Sprintf("scenario=malformed n=%d seed=%d", per*15, r.Intn(1<<30)), "malformed")
 		emit(fmt.Sprintf("scenario=dohcancel n=%d seed=%d", per*2, r.Intn(1<<30)), "dohcancel")
 		emit(fmt.Sprintf("scenario=staleretry n=%d seed=%d", per, r.Intn(1<<30)), "staleretry")
+		emit(fmt.Sprintf("scenario=redisstall n=%d seed=%d", per*300, r.Intn(1<<30)), "redisstall")
 	}
 }
 
